@@ -771,6 +771,13 @@ def _sequential(ctx: Ctx, with_model: bool) -> None:
     bases = ["enum", "constrained_primitives"] if ctx.tier == "quick" else cc.BASES + ["list_of_classes", "primitive_types"]
     for base in bases:
         cc.run_batch(ctx, list(cc.sequential_scenarios()), "sequential-histories", base=base, with_model=with_model)
+    # strengthening after the seeded changes C23-4 / C23-6: cached runs OVERLAPPING in time on one model text (each must
+    # behave as an uncached run), and the model file SAVED with another text between the steps of a cached run
+    cc.run_batch(ctx, list(cc.overlap_scenarios()), "overlapping-cold-runs", with_model=with_model)
+    cc.run_batch(ctx, list(cc.edit_scenarios()), "edit-during-run", with_model=with_model)
+    if ctx.tier == "thorough":
+        cc.run_batch(ctx, list(cc.two_writer_scenarios(0, 0)), "overlapping-cold-runs-all", with_model=with_model)
+        cc.run_batch(ctx, list(cc.edit_scenarios()), "edit-during-run", base="constrained_primitives", with_model=with_model)
     rnd = []
     for k in range(ctx.n(60, 800)):
         # random sequential histories: every run finishes before the next one starts; occasionally one crashes
@@ -779,6 +786,9 @@ def _sequential(ctx: Ctx, with_model: bool) -> None:
             ev.append(cc.sp(ctx.rng.choice([0, 0, 1, 2, 3, 7, 9]), 1 if ctx.rng.random() < 0.7 else 0))
             if ctx.rng.random() < 0.15:
                 ev += cc.st(i, ctx.rng.randint(0, 12)) + [(ctx.rng.choice(["ex", "ki"]), i)]
+            if ctx.rng.random() < 0.3:
+                # the model file of this run is saved with another text while the run is under way
+                ev += cc.st(i, ctx.rng.randint(0, 14)) + [cc.ed(i, ctx.rng.choice([0, 1, 2, 3, 7, 9]))]
             ev += cc.st(i, cc.FULL)
         rnd.append((f"seq-random-{k}", ev, False))
     cc.run_batch(ctx, rnd, "sequential-random", with_model=with_model)
